@@ -1,7 +1,10 @@
 //! Implementation of the Universal Chess Interface (UCI) protocol
 
 use std::io::{BufRead, IsTerminal};
+#[cfg(not(jgilchrist_tcheran_verif))]
 use std::sync::{Arc, Mutex};
+#[cfg(jgilchrist_tcheran_verif)]
+use crate::verif_seam::sync::{Arc, Mutex};
 use std::time::{Duration, Instant};
 
 use crate::chess::moves::{Move, MoveListExt};
@@ -332,6 +335,10 @@ impl Uci {
                 let persistent_state = self.persistent_state.clone();
                 let is_stopped = self.is_stopped.clone();
 
+                // Under the simulator `std::thread::spawn` below creates a simulated thread.
+                #[cfg(jgilchrist_tcheran_verif)]
+                use crate::verif_seam::std_shim as std;
+
                 let join_handle = std::thread::spawn(move || {
                     let mut persistent_state_handle = persistent_state.lock().unwrap();
 
@@ -481,6 +488,9 @@ impl Uci {
     fn main_loop_stdin(&mut self) -> Result<(), String> {
         let stdin_lines = std::io::stdin().lock().lines();
 
+        #[cfg(jgilchrist_tcheran_verif)]
+        let stdin_lines = crate::verif_seam::stdin_lines(stdin_lines);
+
         for line in stdin_lines {
             let line = line.unwrap();
             let should_continue = self.run_line(&line).map_err(|e| format!("Error: {e}"))?;
@@ -538,6 +548,9 @@ pub enum UciInputMode {
 
 pub fn uci(uci_input_mode: UciInputMode) -> Result<(), String> {
     let options = EngineOptions::default();
+
+    #[cfg(jgilchrist_tcheran_verif)]
+    let options = crate::verif_seam::initial_options(options);
 
     let mut uci = Uci {
         control: None,
